@@ -205,9 +205,11 @@ def items_st(draw, alias, min_items=1, max_items=4, eid_scheme=None):
     else:
         eids = sorted(draw(st.lists(st.integers(1, 12), min_size=k, max_size=k, unique=True)))
     names = draw(names_st(k, prefix="i"))
+    # aliases are case-sensitive identifiers: some carry upper-case characters
+    upper = draw(st.lists(st.booleans(), min_size=k, max_size=k))
     return [
-        {"eid": eids[i], "sid": "%04d" % (eids[i] + 100), "alias": "%s_%d" % (alias, i + 1),
-         "name": names[i]}
+        {"eid": eids[i], "sid": "%04d" % (eids[i] + 100),
+         "alias": ("%s_Q%d" if upper[i] else "%s_%d") % (alias, i + 1), "name": names[i]}
         for i in range(k)
     ]
 
